@@ -35,7 +35,19 @@ type Event struct {
 	Args []Value
 }
 
+// Thread is a parked logical thread (frame stack) of a multi-threaded harness.
+type Thread struct {
+	ID      int
+	Frames  []*Frame
+	Waiting bool // blocked in verifJoinAll
+}
+
 type State struct {
+	Parked    []*Thread
+	CurID     int
+	CurWait   bool
+	NextTID   int
+	Sched     []int // schedule: thread ids in the order they were resumed
 	Frames    []*Frame
 	Heap      map[int]Value // overlay over Engine.Base
 	PC        []*Term
@@ -72,6 +84,16 @@ func (s *State) Clone() *State {
 		f.owned = false
 		n.Frames[i] = f
 	}
+	n.CurID, n.CurWait, n.NextTID = s.CurID, s.CurWait, s.NextTID
+	n.Sched = append([]int(nil), s.Sched...)
+	for _, t := range s.Parked {
+		nt := &Thread{ID: t.ID, Waiting: t.Waiting, Frames: make([]*Frame, len(t.Frames))}
+		for i, f := range t.Frames {
+			f.owned = false
+			nt.Frames[i] = f
+		}
+		n.Parked = append(n.Parked, nt)
+	}
 	return n
 }
 
@@ -107,6 +129,7 @@ type Finding struct {
 	Arrays map[string][]int  `json:"arrays,omitempty"`
 	Reach  []string          `json:"reach,omitempty"`
 	Cross  string            `json:"cross,omitempty"`
+	Sched  []int             `json:"schedule,omitempty"`
 }
 
 type Engine struct {
